@@ -316,6 +316,50 @@ def run(tier, seed, rng):
         if not ok:
             failures.append(dict(kind='oracle', sig='stack-recursive', what=f"a failure {depth} levels deep in a self-referencing packet class ({phase}) must carry {depth} stack entries: the failing field then one per enclosing reference",
                                  classes=rsrc, cls='Node', case={k: v for k, v in c.items() if k in ('raw', 'value')}, observed=o))
+    # ---- moves to a LITERAL position that ends below 0 (documented negative shift after a short string, at(-1) in a packet that starts
+    # at offset 0), generated code against its interpreted twin, both directions, top level / nested / in a sequence: the innermost
+    # entry names the positioning field at the offset where it BEGINS (never the negative target)
+    def _mv(sfx, conf):
+        return (f"class Tagged{sfx}(Packet):\n{conf}    name = Data(until_marker=b'\\0')\n    tag = Data(2).shift(-3)\n"
+                f"class Envelope{sfx}(Packet):\n{conf}    kind = Int(1)\n    body = Ref(Tagged{sfx})\n"
+                f"class Peek{sfx}(Packet):\n{conf}    prev = Int(1).at(-1)\n    cur = Int(1)\n"
+                f"class Holder{sfx}(Packet):\n{conf}    pad = Data(2)\n    peeks = Ref(Peek{sfx}).repeated(2)\n"
+                f"class Back{sfx}(Packet):\n{conf}    a = Int(1)\n    b = Int(2).shift(-4)\n    c = Int(1).at(-2)\n")
+    msrc = _mv('', '') + _mv('L', "    __bisturi__ = {'generate_for_pack': False, 'generate_for_unpack': False}\n")
+    mcases, mwant = [], []
+    for sfx in ('', 'L'):
+        for L in range(0, 4):
+            nm = b'abc'[:L]
+            for off in (0, 1, 3):
+                raw = b'..:'[:off] + nm + b'\x00' + b'zz'
+                mcases.append(dict(cls='Tagged' + sfx, op='unpack_end', raw=raw.hex(), offset=off)); mwant.append((off + L + 1, off + L - 2, 1))
+                raw = b'..:'[:off] + b'\x05' + nm + b'\x00' + b'zz'
+                mcases.append(dict(cls='Envelope' + sfx, op='unpack_end', raw=raw.hex(), offset=off)); mwant.append((off + 1 + L + 1, off + 1 + L - 2, 2))
+            mcases.append(dict(cls='Tagged' + sfx, op='pack', value={"py": f"Tagged{sfx}(name={nm!r}, tag=b'xy')"})); mwant.append((L + 1, L - 2, 1))
+            mcases.append(dict(cls='Envelope' + sfx, op='pack', value={"py": f"Envelope{sfx}(kind=5, body=Tagged{sfx}(name={nm!r}, tag=b'xy'))"})); mwant.append((1 + L + 1, 1 + L - 2, 2))
+        for off in (0, 1, 2):
+            mcases.append(dict(cls='Peek' + sfx, op='unpack_end', raw=b'abcd'.hex(), offset=off)); mwant.append((off, off - 1, 1))
+            mcases.append(dict(cls='Holder' + sfx, op='unpack_end', raw=b'abcdefgh'.hex(), offset=off)); mwant.append((off + 2, off + 1, 2))
+            mcases.append(dict(cls='Back' + sfx, op='unpack_end', raw=b'abcdefgh'.hex(), offset=off)); mwant.append((off + 1, off - 3, 1))
+        mcases.append(dict(cls='Peek' + sfx, op='pack', value={"py": f"Peek{sfx}(prev=1, cur=2)"})); mwant.append((0, -1, 1))
+        mcases.append(dict(cls='Holder' + sfx, op='pack', value={"py": f"Holder{sfx}(pad=b'pp', peeks=[Peek{sfx}(prev=1, cur=2), Peek{sfx}(prev=3, cur=4)])"})); mwant.append((2, 1, 2))
+        mcases.append(dict(cls='Back' + sfx, op='pack', value={"py": f"Back{sfx}(a=1, b=2, c=3)"})); mwant.append((1, -3, 1))
+    mres = run_impl(os.path.join(VERIF, 'harness', 'impl_pkt.py'), dict(header=decl.HEADER_PY, blocks=[dict(name='negmove', src=msrc)], modname='c12m', cases=mcases))
+    dist['negative_literal_move_cases'] = len(mcases)
+    half = len(mcases) // 2
+    for i, (c, o, (begin, target, depth)) in enumerate(zip(mcases, mres['outcomes'], mwant)):
+        bad = None
+        if target < 0:
+            st = o.get('stack', [])
+            if not (o.get('err') in ('packing', 'unpacking') and o.get('str_ok') and len(st) == depth and st[0][0] == begin and st[0][1].startswith('_shift_to_')):
+                bad = f"the move ends at {target} < 0: a PacketError whose innermost entry names the positioning field at offset {begin}, {depth} entries"
+        elif 'ok' not in o and c['op'] != 'pack':     # (serializing back over bytes already written is a collision)
+            bad = f"the move ends at {target} >= 0: no error"
+        twin = mres['outcomes'][i + half] if i < half else None
+        if bad is None and twin is not None and (target < 0 or 'ok' in o or 'ok' in twin) and json.dumps(o).replace('L"', '"') != json.dumps(twin).replace('L"', '"'):
+            bad = f"generated code and the interpreted twin report differently: {str(twin)[:200]}"
+        if bad:
+            failures.append(dict(kind='oracle', sig='stack-negative-literal-move', what=bad, classes=msrc, cls=c['cls'], case={k: v for k, v in c.items() if k in ('raw', 'value', 'offset')}, observed=o))
     # ---- finding D12: descriptor hooks run outside the wrapped region
     probe = run_impl(os.path.join(VERIF, 'harness', 'impl_d12.py'), {})
     for cls, bad, what in probe:
